@@ -115,9 +115,12 @@ def check_row_exact(node, a, b, got):
     if r[0] == "undef":
         return None if not math.isfinite(got) else f"undefined operation gave finite {got!r}"
     if r[0] == "big":
-        return None if (math.isinf(got) or abs(got) > 1e300) else f"overflowing operation gave {got!r}"
+        # far beyond the binary64 range: the correctly rounded result is an infinity, not a large finite number
+        return None if math.isinf(got) else f"overflowing operation gave the finite number {got!r} (the value of the expression is beyond the binary64 range: inf)"
     v = r[1]
     if abs(v) > mpmath.mpf(MAXD):
+        if abs(v) > mpmath.mpf(MAXD) * (1 + mpmath.mpf("1e-9")):
+            return None if math.isinf(got) else f"overflow expected (exact value {mpmath.nstr(v, 8)}), got the finite number {got!r}"
         return None if (math.isinf(got) or abs(got) >= 1e308) else f"overflow expected, got {got!r}"
     if math.isnan(got) or math.isinf(got):
         if abs(v) > mpmath.mpf("1e307"):
